@@ -19,7 +19,8 @@ GenView == vars
 Design == [UnlockAt |-> UnlockAt, RefRelease |-> RefRelease, SeqAtomic |-> SeqAtomic,
            DryRunAllocates |-> DryRunAllocates, DryRunPublishes |-> DryRunPublishes,
            RevertEventSwapped |-> RevertEventSwapped, MetaSourceLocked |-> MetaSourceLocked,
-           AckWaitsPersist |-> AckWaitsPersist, IkSpan |-> IkSpan, RevertGuard |-> RevertGuard]
+           AckWaitsPersist |-> AckWaitsPersist, IkSpan |-> IkSpan, RevertGuard |-> RevertGuard,
+           MetaLogsCarryIk |-> MetaLogsCarryIk, CancelAbortsWait |-> CancelAbortsWait]
 
 GenInit == Init /\ hist = <<>> /\ emitted = FALSE
 
@@ -33,6 +34,7 @@ GStep ==
         /\ hist' = Append(hist, [a |-> "step", p |-> p, at |-> pc'[p], rs |-> resp'[p].st,
                                   code |-> resp'[p].code, txid |-> resp'[p].txid] @@ Obs)
 
+GCancel == \E p \in Procs : Cancel(p) /\ hist' = Append(hist, [a |-> "cancel", p |-> p] @@ Obs)
 GPersist == Persist /\ hist' = Append(hist, [a |-> "persist"] @@ Obs)
 GCrash(applied) == Crash(applied) /\ hist' = Append(hist, [a |-> "crash", applied |-> applied] @@ Obs)
 
@@ -46,12 +48,27 @@ Emit ==
 
 GenNext ==
     \/ /\ ~emitted /\ Len(hist) < MaxLen /\ UNCHANGED emitted
-       /\ (GStep \/ GPersist \/ GCrash(TRUE) \/ GCrash(FALSE))
+       /\ (GStep \/ GCancel \/ GPersist \/ GCrash(TRUE) \/ GCrash(FALSE))
     \/ Emit
 
 GenSpec == GenInit /\ [][GenNext]_gvars
 
+\* sequential histories: a request starts only when no other request is in flight
+\* (every order of the requests, crashes between and inside them)
+Idle(q) == pc[q] \in {"start", "finished", "dead"}
+SeqStep ==
+    \E p \in Procs :
+        /\ \A q \in Procs \ {p} : Idle(q)
+        /\ Step(p)
+        /\ hist' = Append(hist, [a |-> "step", p |-> p, at |-> pc'[p], rs |-> resp'[p].st,
+                                  code |-> resp'[p].code, txid |-> resp'[p].txid] @@ Obs)
+SeqNext ==
+    \/ /\ ~emitted /\ Len(hist) < MaxLen /\ UNCHANGED emitted
+       /\ (SeqStep \/ GPersist \/ GCrash(TRUE) \/ GCrash(FALSE))
+    \/ Emit
+SeqSpec == GenInit /\ [][SeqNext]_gvars
+
 \* model checking with the history carried along (negative designs): no Emit
-AttackNext == UNCHANGED emitted /\ (GStep \/ GPersist \/ GCrash(TRUE) \/ GCrash(FALSE))
+AttackNext == UNCHANGED emitted /\ (GStep \/ GCancel \/ GPersist \/ GCrash(TRUE) \/ GCrash(FALSE))
 AttackSpec == GenInit /\ [][AttackNext]_gvars
 =============================================================================
